@@ -231,6 +231,11 @@ impl<const N: usize, T> Drop for Drain<'_, N, T> {
         drop(right);
         drop(left);
 
+        if N == 0 {
+            // Nothing to move, and no valid position in a zero-capacity buffer
+            return;
+        }
+
         // The drain has left a "hole" of items in the `CircularBuffer` that either got moved out
         // during iteration, or got dropped earlier. There are 3 possible scenarios for the state
         // of the `CircularBuffer` at this point:
